@@ -14,11 +14,18 @@ RULE = ('operation histories on 1-3 IOQueues and 0-2 IOStacks sharing one Memory
         'stacks/queues, SendMessage(IOStack*/IOQueue*), PerformWrite with a scripted writev() result (0, 1, bs-1, bs, bs+1, '
         'pending-1, pending, pending+1, far more than offered, error), LimitReached with limits 0,1,bs,bs+1,2bs,2bs+1,7,10,1024, '
         'BigEndianOutputStream/BigEndianInputStream round trips across block boundaries incl. short reads, MemoryBuffer '
-        'read scripts (Read, ReadString, >> past the end); every observable compared after every op; non-trivial = at '
+        'read scripts (Read, ReadString, >> past the end); two-pool histories (class C*: pools with different block sizes, '
+        'blocks moved between buffers of different pools, consumed on the destination, then further writes aimed at multiples '
+        'of both block sizes and reads on the destination; model faithful to the code: bytes conserved, pool counters per '
+        'known finding C15-crosspool); buffers of 1023/1024/1025/3000 blocks on 1- and 4-byte pools (class big*/Xbig*: AsIOVec '
+        'beyond IOV_MAX entries, Read/Pop/Peek/move, PerformWrite with a writev that accepts all it is offered); every observable compared after every op; non-trivial = at '
         'least one byte written and one byte read / peeked / accepted by the descriptor; distinct = distinct model output line')
 ASSUMPTIONS = ['operator new does not fail',
-               'every buffer handed to one operation uses the same MemoryBlockPool (otherwise: known finding C15-crosspool, '
-               'theorem c15_crosspool_refuted); AppendMove is never called with the queue itself (iterates a deque while pushing to it)',
+               'the THEOREMS are about buffers sharing one pool; histories over two pools are covered by the executable model '
+               'Multi.v and the correspondence check only (bytes / Size / Empty / iovec must agree with the model, i.e. be conserved; '
+               'the pool counters follow known finding C15-crosspool, theorem c15_crosspool_refuted);'
+               ' the interposed writev accepts any number of iovec entries (a real kernel returns EINVAL above IOV_MAX = the scripted '
+               'error path); AppendMove is never called with the queue itself (iterates a deque while pushing to it)',
                'lengths and counters are unbounded naturals in the block-level model; the only unsigned-int sums that can wrap '
                '(Size(), hence LimitReached(), and m_blocks_allocated) are treated explicitly: c15_size32 states Size() modulo 2^32 '
                'with the guard "buffer holds < 2^32 bytes", c15_size32_wraps shows the wrap, and c15_sender_conserves is proved '
@@ -255,6 +262,72 @@ def xcases(rng, count):
         yield g.payload('snd-' + fam if fam != 'stream' else 'stream')
 
 
+def ccases(rng, count):
+    """two pools with different block sizes; blocks move between buffers of different pools, are consumed on the
+    destination (released into ITS pool), then the destination keeps writing / reading (known finding C15-crosspool:
+    the pool counters go wrong, the BYTES must not)"""
+    pairs = [(1, 2), (2, 1), (4, 8), (8, 4), (2, 3), (3, 2), (1, 4), (4, 1), (3, 8), (8, 3), (2, 5), (5, 2), (4, 4)]
+    ckinds = [k for k in KINDS if k != 'pg']
+    for _ in range(count):
+        bsa, bsb = rng.choice(pairs)
+        qm = rng.choice(['AB', 'AB', 'BA', 'ABB', 'AAB'])
+        sm = rng.choice(['A', 'B', 'AB', 'BA'])
+        g = Gen(rng, bsa, len(qm), len(sm))
+        bsof = {'A': bsa, 'B': bsb}
+        fam = rng.choice(['recycle', 'recycle', 'random'])
+        if fam == 'recycle':
+            for _ in range(rng.randrange(1, 4)):
+                dst = rng.randrange(len(qm))
+                # a source on the OTHER pool
+                srcs = [('q', i) for i in range(len(qm)) if qm[i] != qm[dst]] + \
+                       [('s', j) for j in range(len(sm)) if sm[j] != qm[dst]]
+                kind, src = rng.choice(srcs)
+                bs_s, bs_d = bsof[(qm if kind == 'q' else sm)[src]], bsof[qm[dst]]
+                n = rng.choice([bs_s, 2 * bs_s, 3 * bs_s, bs_s + 1, 2 * bs_s + 1, 2 * bs_d, bs_s * bs_d, rng.randrange(1, 4 * max(bs_s, bs_d))])
+                if kind == 'q':
+                    g.ops.append('qw:%d:%s' % (src, hx(g.data(n)))); g.q[src] += n
+                    g.ops.append('qm:%d:%d' % (dst, src)); g.q[dst] += g.q[src]; g.q[src] = 0
+                else:
+                    g.ops.append('sw:%d:%s' % (src, hx(g.data(n)))); g.s[src] += n
+                    g.ops.append('sm:%d:%d' % (src, dst)); g.q[dst] += g.s[src]; g.s[src] = 0
+                # consume on the destination: the foreign blocks land on the destination pool's free list
+                g.ops.append('%s:%d:%d' % (rng.choice(['qr', 'qp', 'qs']), dst, rng.choice([g.q[dst], g.q[dst], g.q[dst] + 1, max(0, g.q[dst] - 1)])))
+                g.q[dst] = 0 if g.ops[-1].endswith(':%d' % g.q[dst]) or g.ops[-1].endswith(':%d' % (g.q[dst] + 1)) else min(g.q[dst], 1)
+                # now write on the destination with lengths aimed at both block sizes, and read it all back
+                for _ in range(rng.randrange(1, 4)):
+                    m = rng.choice([bs_d, 2 * bs_d, 3 * bs_d, bs_d + 1, 2 * bs_d + 1, bs_s, 2 * bs_s, 3 * bs_s, 2 * bs_s + 1,
+                                    bs_s + bs_d, rng.randrange(1, 4 * max(bs_s, bs_d) + 2)])
+                    g.ops.append('qw:%d:%s' % (dst, hx(g.data(m)))); g.q[dst] += m
+                    if rng.random() < 0.3:
+                        g.ops.append('qk:%d:%d' % (dst, g.q[dst]))
+                g.ops.append('qr:%d:%d' % (dst, g.q[dst] + 1)); g.q[dst] = 0
+        else:
+            n = rng.choice([6, 12, 25])
+            tries = 0
+            while len(g.ops) < n and tries < 4 * n:
+                tries += 1
+                g.bs = rng.choice([bsa, bsb])
+                g.emit(rng.choice(ckinds))
+        if not g.ops:
+            g.ops.append('qw:0:' + hx(g.data(bsa + bsb)))
+        yield 'Ccross-%s %d %d %s %s %s' % (fam, bsa, bsb, qm, sm, ' '.join(g.ops))
+
+
+def bigcases():
+    """buffers spread over more than IOV_MAX (1024) blocks: AsIOVec must still export everything"""
+    pat = lambda n: hx([(7 * k + (k >> 8)) & 255 for k in range(n)])
+    for bs, blocks in [(1, 1023), (1, 1024), (1, 1025), (4, 1025), (1, 3000), (4, 3000)]:
+        n = bs * blocks
+        yield 'big-q-bs%d-%d %d 2 1 qw:0:%s qk:0:%d qr:0:1 qp:0:%d qs:0:3 qw:1:%s qm:1:0 qr:1:%d' % (
+            bs, blocks, bs, pat(n), n, bs, hx([1, 2, 3]), n + 3)
+        yield 'big-s-bs%d-%d %d 2 1 sw:0:%s sr:0:1 sp:0:%d ss:0:2 sm:0:0 qr:0:%d' % (bs, blocks, bs, pat(n), bs, n)
+        if blocks >= 1025:
+            # the interposed writev accepts everything it is offered (a real kernel answers EINVAL to more than
+            # IOV_MAX entries, which is the scripted-error path 'xe' of other cases)
+            yield 'Xbig-snd-bs%d-%d %d 2 1 1000000 sw:0:%s xs:0 xw:%d xw:%d qw:1:%s xq:1 xw:5 xw:%d' % (
+                bs, blocks, bs, pat(n), 100000, 100000, pat(n), 100000)
+
+
 KINDS = ['qw', 'qw', 'qw', 'qb', 'qr', 'qr', 'qs', 'qs', 'qk', 'qp', 'qc', 'qm', 'pg',
          'sw', 'sw', 'sw', 'sb', 'sr', 'ss', 'sp', 'sm', 'sm', 'sd']
 
@@ -333,6 +406,10 @@ def gen_cases(rng, tier):
             yield c
     for c in scenarios(rng, 1500 if quick else 40000):
         yield c
+    for c in bigcases():
+        yield c
+    for c in ccases(rng, 2500 if quick else 60000):
+        yield c
     for c in xcases(rng, 4000 if quick else 100000):
         yield c
     for _ in range(3000 if quick else 120000):
@@ -345,11 +422,13 @@ def gen_cases(rng, tier):
         while len(g.ops) < n and tries < 4 * n:
             tries += 1
             g.emit(rng.choice(KINDS))
+        if not g.ops:
+            g.ops.append('qw:0:' + hx(g.data(bs + 1)))
         yield g.payload('rand-bs%d' % bs)
 
 
 def nontrivial(payload, md):
-    ext = payload[0] == 'X'
+    ext = payload[0] in 'XC'
     toks = payload.split()[5 if ext else 4:]
     wrote = any(t[:2] in ('qw', 'sw') and not t.endswith(':-') or t[:2] in ('qb', 'sb') for t in toks)
     if ext and not any(t[:2] == 'mb' for t in toks):
